@@ -156,7 +156,7 @@ pub fn judge_hypot(x: [f64; 2], y: [f64; 2], l: Option<&mut Local>) -> Verdict {
     Verdict::Pass
 }
 
-pub fn judge_powi(x: [f64; 2], n: i32, l: Option<&mut Local>) -> Verdict {
+pub fn judge_powi(x: [f64; 2], n: i32, mut l: Option<&mut Local>) -> Verdict {
     let args = [x[0].to_bits(), x[1].to_bits(), n as i64 as u64];
     if !dd_valid_fast(x[0], x[1]) {
         return Verdict::Skip;
@@ -168,27 +168,20 @@ pub fn judge_powi(x: [f64; 2], n: i32, l: Option<&mut Local>) -> Verdict {
         Err(m) => return Verdict::fail("powi_no_panic", "powi", &args, format!("panic: {}", m), "a value for every i32 exponent".into(), "panic"),
     };
     let same = |a: st::TF| crate::api::canon(a.hi().to_bits()) == crate::api::canon(r[0].to_bits()) && crate::api::canon(a.lo().to_bits()) == crate::api::canon(r[1].to_bits());
+    // the num_traits::Pow spellings: whenever one returns different words from powi it is judged by the same value
+    // clauses (that the spellings are bit-identical is C10's claim, not this property's)
+    let mut cands: Vec<(&'static str, [f64; 2])> = vec![("powi", r)];
     match api(|| (Pow::pow(t, n), if let Ok(m) = i16::try_from(n) { Some(Pow::pow(t, m)) } else { None }, if let Ok(m) = i8::try_from(n) { Some(Pow::pow(t, m)) } else { None }, if let Ok(m) = u16::try_from(n) { Some(Pow::pow(t, m)) } else { None }, if let Ok(m) = u8::try_from(n) { Some(Pow::pow(t, m)) } else { None })) {
         Err(m) => return Verdict::fail("powi_no_panic", "Pow", &args, format!("panic: {}", m), "a value".into(), "panic"),
         Ok((a, b, c, d, e)) => {
             for (nm, v) in [("Pow<i32>", Some(a)), ("Pow<i16>", b), ("Pow<i8>", c), ("Pow<u16>", d), ("Pow<u8>", e)] {
                 if let Some(v) = v {
                     if !same(v) {
-                        return Verdict::fail("Pow == powi", nm, &args, show_dd([v.hi(), v.lo()]), show_dd(r), "spelling_differs");
+                        cands.push((nm, [v.hi(), v.lo()]));
                     }
                 }
             }
         }
-    }
-    let v = bfx(x);
-    if n == 0 {
-        if v.is_zero() {
-            return if is_invalid(r) { Verdict::Pass } else { Verdict::fail("0^0 invalid", "powi", &args, show_dd(r), "NaN".into(), "valid_for_domain_error") };
-        }
-        return if r[0] == 1.0 && r[1] == 0.0 { Verdict::Pass } else { Verdict::fail("x^0 = 1", "powi", &args, show_dd(r), "1".into(), "wrong_value") };
-    }
-    if n == 1 {
-        return if r[0].to_bits() == x[0].to_bits() && r[1].to_bits() == x[1].to_bits() { Verdict::Pass } else { Verdict::fail("x^1 = x", "powi", &args, show_dd(r), show_dd(x), "wrong_value") };
     }
     if n < 0 && n != i32::MIN {
         // powi(x, -m) bit-identical to powi(x, m).recip()
@@ -201,6 +194,27 @@ pub fn judge_powi(x: [f64; 2], n: i32, l: Option<&mut Local>) -> Verdict {
             Err(m) => return Verdict::fail("powi_no_panic", "powi", &args, format!("panic in powi(x,{}).recip(): {}", -(n as i64), m), "a value".into(), "panic"),
         }
     }
+    for (nm, r) in cands {
+        let v = powi_value(nm, x, n, r, &args, l.as_deref_mut());
+        if v.is_fail() {
+            return v;
+        }
+    }
+    Verdict::Pass
+}
+
+/// the value clauses of powi for one observed result `r` (from `powi` or from a `Pow` spelling)
+fn powi_value(name: &'static str, x: [f64; 2], n: i32, r: [f64; 2], args: &[u64], l: Option<&mut Local>) -> Verdict {
+    let v = bfx(x);
+    if n == 0 {
+        if v.is_zero() {
+            return if is_invalid(r) { Verdict::Pass } else { Verdict::fail("0^0 invalid", name, args, show_dd(r), "NaN".into(), "valid_for_domain_error") };
+        }
+        return if r[0] == 1.0 && r[1] == 0.0 { Verdict::Pass } else { Verdict::fail("x^0 = 1", name, args, show_dd(r), "1".into(), "wrong_value") };
+    }
+    if n == 1 {
+        return if r[0].to_bits() == x[0].to_bits() && r[1].to_bits() == x[1].to_bits() { Verdict::Pass } else { Verdict::fail("x^1 = x", name, args, show_dd(r), show_dd(x), "wrong_value") };
+    }
     if v.is_zero() {
         return Verdict::Pass;
     }
@@ -212,8 +226,8 @@ pub fn judge_powi(x: [f64; 2], n: i32, l: Option<&mut Local>) -> Verdict {
     let nn = n as i64;
     judge_tol(
         "powi: (6|n|+16)u^2",
-        "powi",
-        &args,
+        name,
+        args,
         r,
         |p| {
             let e = rf::powi_pt(&v, nn, p + 40);
